@@ -117,7 +117,7 @@ func Plan(c Cfg) *workflow.Plan {
 		p.State = &workflow.State{}
 	}
 	pm := mask("plan.groups", c.PlanGroups)
-	api.Fact("plan.groups", fmt.Sprint(pm))
+	api.Fact("i:plan.groups", fmt.Sprint(pm))
 	g := c.groups("plan", pm)
 	p.BypassChecks, p.PreChecks, p.ContChecks, p.PostChecks, p.DeferredChecks = g[0], g[1], g[2], g[3], g[4]
 
@@ -139,7 +139,7 @@ func Plan(c Cfg) *workflow.Plan {
 		if !simple {
 			bm = mask(bn+".groups", c.BlockGroups)
 		}
-		api.Fact(bn+".groups", fmt.Sprint(bm))
+		api.Fact("i:"+bn+".groups", fmt.Sprint(bm))
 		bg := c.groups(bn, bm)
 		b.BypassChecks, b.PreChecks, b.ContChecks, b.PostChecks, b.DeferredChecks = bg[0], bg[1], bg[2], bg[3], bg[4]
 		ns := 1
@@ -174,7 +174,7 @@ func Plan(c Cfg) *workflow.Plan {
 		}
 		p.Blocks = append(p.Blocks, b)
 	}
-	api.Fact("blocks", fmt.Sprint(nb))
+	api.Fact("i:blocks", fmt.Sprint(nb))
 	return p
 }
 
@@ -186,4 +186,13 @@ func PlanGroups(p *workflow.Plan) [5]*workflow.Checks {
 // BlockGroups returns the five check groups of a block in execution order.
 func BlockGroups(b *workflow.Block) [5]*workflow.Checks {
 	return [5]*workflow.Checks{b.BypassChecks, b.PreChecks, b.ContChecks, b.PostChecks, b.DeferredChecks}
+}
+
+// DbgChecks builds one checks group (development aid).
+func (c Cfg) DbgChecks(name string) *workflow.Checks {
+	c.WithState = true
+	if c.CheckPlugin == "" {
+		c.CheckPlugin = "check"
+	}
+	return c.checks(name)
 }
